@@ -377,6 +377,40 @@ def r6(rr, repo):
     rr.floor('send sites in send_push', n, 1, za.mod, za.RS_send_push)
     uid = [e for p in za.paths('rs_init') for e in p.events if e.kind == 'store' and e.term == 'self.unique_id']
     rr.ob('the unique id is random per Sender object', bool(uid) and uid[0].args[0].startswith('rndstr('), za.mod, uid[0].node if uid else za.RS_init, witness=uid[0].args[0] if uid else '', key='uid-random')
+    # ... and random per PROCESS: filters are forked from one parent (Filter.run_multi / Runner) after this module was imported, so a generator object created at import - a private
+    # random.Random() - has the same state in every child and hands every replica the same "unique" id (the functions of the random MODULE are reseeded in the child by the interpreter,
+    # os.urandom / secrets / uuid4 read the kernel): two consumers with one client id then share one entry of the publisher's wait set, one answers for the other
+    umod, rnd = repo.find('openfilter/filter_runtime/utils.py::rndstr')
+    draws = [c for c in q.calls_in(rnd) if isinstance(c.func, (ast.Name, ast.Attribute)) and U(c.func).split('.')[-1] in ('choice', 'choices', 'sample', 'randrange', 'randint', 'getrandbits', 'randbytes', 'token_hex', 'token_urlsafe', 'token_bytes', 'urandom', 'uuid4', 'shuffle', 'random')]
+    draws += [c for c in q.calls_in(rnd) if isinstance(c.func, ast.Name) and c.func.id.startswith('_')]       # a module-level alias like _choices = Random().choices
+    if not draws:
+        rr.unresolved('rndstr: the call that draws the random characters was not recognised', umod, rnd, key='uid-fork-safe')
+    imports = {}      # name -> module it was imported from
+    bound = {}        # module-level name -> value node
+    for st in umod.tree.body:
+        if isinstance(st, ast.ImportFrom):
+            for a in st.names:
+                imports[a.asname or a.name] = st.module
+        elif isinstance(st, ast.Import):
+            for a in st.names:
+                imports[(a.asname or a.name).split('.')[0]] = a.name
+        elif isinstance(st, ast.Assign) and len(st.targets) == 1 and isinstance(st.targets[0], ast.Name):
+            bound[st.targets[0].id] = st.value
+    for c in draws:
+        f = c.func
+        root = f
+        while isinstance(root, ast.Attribute):
+            root = root.value
+        name = root.id if isinstance(root, ast.Name) else None
+        if name in bound:               # a module-level object: what is it?
+            made = U(bound[name])
+            ok = not ('Random(' in made and 'SystemRandom(' not in made)
+            rr.ob('the characters of a unique id are drawn from a source that differs between processes forked from one parent', ok, umod, c,
+                  witness=f'{U(f)} is bound at import to {made[:60]}', key='uid-fork-safe')
+        elif name in imports and imports[name] in ('random', 'secrets', 'os', 'uuid'):
+            rr.ob('the characters of a unique id are drawn from a source that differs between processes forked from one parent', True, umod, c, witness=f'{U(f)} from module {imports[name]}', key='uid-fork-safe')
+        else:
+            rr.unresolved('rndstr: where the random characters come from was not recognised', umod, c, witness=U(c)[:80], key='uid-fork-safe')
     k = 0
     for p in za.paths('poll'):
         for e in p.events:
